@@ -539,6 +539,34 @@ ScriptPathCases(dummy) ==
                      Item("opsuccess-in-v0", "scriptpath", Wrap("p2wsh", <<>>, <<N(1), Op(187)>>, TxDefault), FSOf({"P2SH", "WITNESS"}, {"TAPROOT", "DISCOURAGE_OP_SUCCESS"})) }
     IN A \cup Bm \cup Sx
 
+\* tapscript signature checks under a Merkle path: path length x leaf position (both orders of the lexicographic
+\* TapBranch hash) x signature-bearing scripts x annex.  The BIP342 digest commits to the TRUE tapleaf hash, whatever
+\* the commitment check computed on the way to the root; a signature over a digest with another leaf hash must fail.
+TapPathCases(dummy) ==
+    LET FS == {{"P2SH", "WITNESS", "TAPROOT"}}
+        trees == {<<0, -1>>, <<1, 0>>, <<1, 1>>, <<2, 0>>, <<2, 1>>, <<2, 2>>, <<2, 3>>, <<7, 0>>, <<7, 127>>, <<7, 85>>, <<128, 715827882>>}
+        k2 == D(PK(2, PKXonly))
+        k3 == D(PK(3, PKXonly))
+        S(k, m) == SSig(k, 0, m, 0)
+        NUMEQUAL == Op(156)
+        \* <<tag, witness inputs (first pushed first) as a function of the designator offset, script>>
+        shapes(off) == {
+            <<"checksig", <<S(2, off + 1)>>, <<k2, CHECKSIG>>>>,
+            <<"checksig-sighash-all", <<SSig(2, 1, off + 1, 0)>>, <<k2, CHECKSIG>>>>,
+            <<"checksigverify", <<S(2, off + 1)>>, <<k2, CHECKSIGVERIFY, N(1)>>>>,
+            <<"checksigadd", <<S(2, off + 1)>>, <<OP0, k2, CHECKSIGADD, N(1), EQUAL>>>>,
+            <<"checksigadd-chain", <<S(3, off + 1), S(2, off + 1)>>, <<k2, CHECKSIG, k3, CHECKSIGADD, N(2), NUMEQUAL>>>>,
+            <<"checksigadd-chain-one-empty", <<<<>>, S(2, off + 1)>>, <<k2, CHECKSIG, k3, CHECKSIGADD, N(1), NUMEQUAL>>>>,
+            <<"codesep-checksig", <<S(2, off + 2)>>, <<CODESEP, k2, CHECKSIG>>>>,
+            <<"codesep-mid-checksigverify", <<S(2, off + 3)>>, <<k2, CODESEP, CHECKSIGVERIFY, N(1)>>>>,
+            <<"codesep-checksigadd", <<S(2, off + 2)>>, <<CODESEP, OP0, k2, CHECKSIGADD, N(1), EQUAL>>>>,
+            <<"codesep-between", <<S(3, off + 4), S(2, off + 1)>>, <<k2, CHECKSIGVERIFY, CODESEP, k3, CHECKSIG>>>> }
+    IN UNION { { Item(ToString(<<"tappath", t, sh[1], Len(an), off>>), "tappath",
+                      MkCase(<<>>, <<N(1), PushOp(32, TRQ(1, PKXonly, 1, 192, t[1]) \o <<t[2]>>)>>,
+                             sh[2] \o <<ScrTok(1, sh[3]), CB(192, 0, 1, PKXonly, t[1], 0) \o <<t[2]>>>> \o an, <<sh[3]>>, 1, "tap", TxDefault), FS)
+                   : t \in trees, sh \in shapes(off), an \in {<<>>, <<<<80, 9, 9>>>>} }
+               : off \in {0, 100} }
+
 \* limit templates
 LimitCases(part) ==
     LET ones(n) == RepSeq(<<N(1)>>, n)
@@ -595,7 +623,7 @@ BudgetCases(dummy) ==
               TapCase(<<<<>>>>, <<D(PK(1, PKXonly))>> \o RepSeq(<<DUP2, CHECKSIG, DROP>>, n) \o <<CHECKSIG, NOT>>, q, cb, <<>>, TxDefault), FS)
            : n \in {1, 10, 50} }
 
-SetFams == {"lock", "codesep", "minimalif", "msig", "msig2", "wprog", "orch", "keypath", "scriptpath", "limits_stack", "limits_ops", "limits_elem", "limits_size", "budget"}
+SetFams == {"lock", "codesep", "minimalif", "msig", "msig2", "wprog", "orch", "keypath", "scriptpath", "limits_stack", "limits_ops", "limits_elem", "limits_size", "budget", "tappath"}
 ProgFams == {"ctrl", "ctrl2", "stack", "arith1", "arith2", "arith3", "hash", "opcodes", "opcodes_unexec", "push", "sig", "tsig", "tsigadd"}
 SetFamOf(FN, ML) ==
     CASE FN = "lock" -> LockCases(177) \cup LockCases(178)
@@ -612,6 +640,7 @@ SetFamOf(FN, ML) ==
       [] FN = "limits_elem" -> LimitCases("elem")
       [] FN = "limits_size" -> LimitCases("size")
       [] FN = "budget" -> BudgetCases(0)
+      [] FN = "tappath" -> TapPathCases(0)
       [] OTHER -> {}
 
 \* lengths per tier when FamName = "all"
